@@ -497,3 +497,238 @@ def dist_c13(cases, results):
             d["pending_surfaced"] += sum(1 for x in tr if x[2] == "P")
     return d
 
+
+
+# ============================================================================== c11x
+# the rest of dfir_pipes::pull: stream adaptors, either, consuming futures
+XCOMBS = ["stream", "stream_compat", "either_l", "either_r", "stream_ready", "flat_map_stream",
+          "flatten_stream", "filter_map_async", "collect", "for_each", "next", "accumulate",
+          "send_push", "send_sink"]
+XPULLS = {"stream", "stream_compat", "either_l", "either_r", "stream_ready", "flat_map_stream",
+          "flatten_stream", "filter_map_async"}
+ST_VOCAB = {"s_rep": "SRep", "s_pp": "SPP", "s_empty": "SEmpty", "s_pend": "SPend", "s_endmid": "SEndMid"}
+FU_VOCAB = {"a_half": "AHalf", "a_now": "ANow", "a_none": "ANone", "a_slow": "ASlow"}
+ACC_VOCAB = {"fold": "AFold", "reduce": "AReduce", "fold_from": "AFoldFrom"}
+
+
+def g_bools(l):
+    return "[" + "; ".join("true" if b else "false" for b in l) + "]"
+
+
+def g_src_scripts(i):
+    """a source whose items are scripts (flatten_stream)"""
+    steps = []
+    for x in i["s"]:
+        steps.append("Pend" if x == "P" else "End" if x == "E" else "Rdy %s" % g_script(x))
+    hi = "None" if i.get("hi") is None else "(Some %d)" % i["hi"]
+    return "(Src [%s] %d %s)" % ("; ".join(steps), i.get("lo", 0), hi)
+
+
+def g_src_kv(i):
+    hi = "None" if i.get("hi") is None else "(Some %d)" % i["hi"]
+    return "(Src %s %d %s)" % (g_kvscript(i["s"]), i.get("lo", 0), hi)
+
+
+def g_xcase(c):
+    comb, ins = c["comb"], c["ins"]
+    if comb in ("stream", "stream_compat", "either_l"):
+        return "(XRelay %s)" % g_src(ins[0])
+    if comb == "either_r":
+        return "(XRelay %s)" % g_src(ins[1])
+    if comb == "stream_ready":
+        return "(XStreamReady %s)" % g_src(ins[0])
+    if comb == "flat_map_stream":
+        return "(XFlatMapStream %s %s)" % (ST_VOCAB[c["fn"]], g_src(ins[0]))
+    if comb == "flatten_stream":
+        return "(XFlattenStream %s)" % g_src_scripts(ins[0])
+    if comb == "filter_map_async":
+        return "(XFilterMapAsync %s %s)" % (FU_VOCAB[c["fn"]], g_src(ins[0]))
+    if comb in ("collect", "for_each"):
+        return "(XCollect %s)" % g_src(ins[0])
+    if comb == "next":
+        return "(XNext %s)" % g_src(ins[0])
+    if comb == "accumulate":
+        return "(XAccumulate %s %s)" % (ACC_VOCAB[c["fn"]], g_src_kv(ins[0]))
+    if comb in ("send_push", "send_sink"):
+        return "(XSend %s %s %s %s)" % ("true" if comb == "send_push" else "false",
+                                        g_bools(c.get("ready", [])), g_bools(c.get("fin", [])), g_src(ins[0]))
+    raise ValueError(comb)
+
+
+def g_ev(e):
+    if e[0] == "H":
+        return "EHint (%d, %s)" % (e[1], "None" if e[2] is None else "Some %d" % e[2])
+    if e[0] == "Rd":
+        return "EReady %s" % ("true" if e[1] else "false")
+    if e[0] == "S":
+        return "ESend %d" % e[1]
+    if e[0] == "F":
+        return "EFin %s" % ("true" if e[1] else "false")
+    raise ValueError(e)
+
+
+def c11x_term(case, res):
+    comb = case["comb"]
+    if comb in XPULLS:
+        if "trace" not in res:
+            return 3
+        return "xchk_pull %s %s" % (g_xcase(case), g_trace(res["trace"]))
+    if "pendings" not in res:
+        return 3
+    r = res["result"]
+    items, rows, nxt, log = "[]", "[]", "Pending", "[]"
+    if comb in ("collect", "for_each"):
+        items = "[" + "; ".join("%d" % x for x in r) + "]"
+    elif comb == "next":
+        nxt = "Pending" if r == "P" else "Ended" if r == "E" else "Ready %d" % r[1]
+    elif comb == "accumulate":
+        rows = g_kvlist(r)
+    else:
+        if any(e[0] == "flush" for e in r):
+            return 3
+        log = "[" + "; ".join(g_ev(e) for e in r) + "]"
+    obs = "(FObs %d %s %d %s %s (%s) %s)" % (res["pendings"], "true" if res["completed"] else "false",
+                                             res["after_end"], items, rows, nxt, log)
+    return "xchk_fut %s %s" % (g_xcase(case), obs)
+
+
+def rand_xcase(rng, comb=None):
+    comb = comb or rng.choice(XCOMBS)
+    pend_num = rng.choice([0, 1, 3, 5])
+    maxlen = rng.choice([5, 12])
+    fused = rng.chance(2, 3)
+    c = {"k": "c11x", "comb": comb, "extra": rng.range(1, 3)}
+    if comb == "flatten_stream":
+        s = []
+        for _ in range(rng.range(0, 8)):
+            if rng.chance(pend_num, 10):
+                s.append("P")
+            else:
+                s.append(rand_script(rng, 4, 3, rng.chance(3, 4)))
+        if not fused and s:
+            s.insert(rng.below(len(s) + 1), "E")
+        c["ins"] = [{"s": s, "lo": 0, "hi": rng.choice(HI_CHOICES)}]
+    elif comb == "accumulate":
+        c["ins"] = [{"s": rand_kvscript(rng, 8, 3, 6, rng.below(4)), "lo": 0, "hi": None}]
+        if not fused:
+            c["ins"][0]["s"].insert(rng.below(len(c["ins"][0]["s"]) + 1), "E")
+        c["fn"] = rng.choice(sorted(ACC_VOCAB))
+    else:
+        c["ins"] = [rand_input(rng, maxlen, pend_num, fused)]
+        if comb.startswith("either"):
+            c["ins"].append(rand_input(rng, maxlen, pend_num, fused))
+    if comb == "flat_map_stream":
+        c["fn"] = rng.choice(sorted(ST_VOCAB))
+    if comb == "filter_map_async":
+        c["fn"] = rng.choice(sorted(FU_VOCAB))
+    if comb in ("send_push", "send_sink"):
+        c["ready"] = [rng.chance(2, 3) for _ in range(rng.below(8))]
+        c["fin"] = [rng.chance(1, 2) for _ in range(rng.below(3))]
+    return c
+
+
+def exhaustive_xcases():
+    """every adaptor x item sequences <= 4 x every placement of <= 2 Pend (closures rotate)"""
+    cases = []
+    one = all_scripts(4, 2, [3, 1, 4, 6])
+    j = 0
+    for comb in XCOMBS:
+        if comb in ("flatten_stream", "accumulate"):
+            continue
+        for s in one:
+            j += 1
+            c = {"k": "c11x", "comb": comb, "extra": 1, "ins": [{"s": s, "lo": 0, "hi": 0}]}
+            if comb.startswith("either"):
+                c["ins"].append({"s": list(reversed(s)), "lo": 0, "hi": None})
+            if comb == "flat_map_stream":
+                c["fn"] = sorted(ST_VOCAB)[j % len(ST_VOCAB)]
+            if comb == "filter_map_async":
+                c["fn"] = sorted(FU_VOCAB)[j % len(FU_VOCAB)]
+            if comb in ("send_push", "send_sink"):
+                c["ready"] = [(j >> b) & 1 == 0 for b in range(j % 4)]
+                c["fin"] = [False] * (j % 2)
+            cases.append(c)
+    return cases
+
+
+# ---- known-finding classes (decided structurally on the implementation's trace)
+def _items_until_end(tr):
+    out = []
+    for _, _, st in tr:
+        if st == "E":
+            return out, True
+        if isinstance(st, list):
+            out.append(st[1])
+    return out, False
+
+
+def _hint_violations(tr):
+    kinds = set()
+    for i in range(len(tr)):
+        rest, ended = _items_until_end(tr[i:])
+        if not ended:
+            break
+        lo, hi, st = tr[i]
+        if lo > len(rest):
+            kinds.add("lower")
+        if hi is not None and hi < len(rest):
+            kinds.add("upper")
+        if st == "E":
+            break
+    return kinds
+
+
+FU_PY = {"a_half": lambda x: (x // 2) if x % 2 == 0 else None, "a_now": lambda x: x + 1,
+         "a_none": lambda x: None, "a_slow": lambda x: x}
+
+
+def script_items(s):
+    out = []
+    for x in s:
+        if x == "E":
+            break
+        if x != "P":
+            out.append(x)
+    return out
+
+
+def finding_key_c11x(case, res):
+    """filter_map_async: size_hint's upper bound forgets the item held by the in-flight future;
+    stream_ready: size_hint's lower bound counts items behind a Pending, which it reports as the end.
+    Only when everything else about the trace is right."""
+    if case.get("k") != "c11x" or not isinstance(res, dict) or "trace" not in res:
+        return None
+    tr = res["trace"]
+    got, ended = _items_until_end(tr)
+    if not ended:
+        return None
+    viol = _hint_violations(tr)
+    s = case["ins"][0]["s"]
+    if case["comb"] == "filter_map_async":
+        ref = [y for y in (FU_PY[case["fn"]](x) for x in script_items(s)) if y is not None]
+        if got == ref and viol == {"upper"}:
+            return "filter_map_async/size_hint/upper-ignores-inflight-future"
+    if case["comb"] == "stream_ready":
+        ref = []
+        for x in s:
+            if x in ("P", "E"):
+                break
+            ref.append(x)
+        if got == ref and viol == {"lower"}:
+            return "stream_ready/size_hint/lower-counts-items-behind-pending"
+    return None
+
+
+def shrink_x(case):
+    ins = case["ins"]
+    for i, inp in enumerate(ins):
+        s = inp["s"]
+        for j in range(len(s)):
+            yield dict(case, ins=ins[:i] + [dict(inp, s=s[:j] + s[j + 1:])] + ins[i + 1:])
+        if inp.get("lo", 0) != 0 or inp.get("hi") not in (0, None):
+            yield dict(case, ins=ins[:i] + [dict(inp, lo=0, hi=0)] + ins[i + 1:])
+    for k in ("ready", "fin"):
+        if case.get(k):
+            yield dict(case, **{k: case[k][:-1]})
+    if case.get("extra", 0) > 1:
+        yield dict(case, extra=1)
